@@ -471,6 +471,7 @@ def graph_stream(ctx, n):
 # the real LSP handlers (crates/samlang-cli/src/main.rs) driven over stdio
 
 CLI_TARGET = os.path.join(common.HARNESS, "target", "cli")
+OUTSIDE = "!"
 
 
 def build_cli():
@@ -527,6 +528,8 @@ class Lsp:
             self.buf += chunk
 
     def uri(self, m):
+        if m == OUTSIDE:     # a document that is not in the source directory
+            return "file:///scratch/c10-not-in-the-project/Elsewhere.sam"
         return "file://" + os.path.join(self.src, *m.split(".")) + ".sam"
 
     def path(self, m):
@@ -621,7 +624,17 @@ def gen_events(rng, nev):
     evs = []
     for _ in range(nev):
         live = sorted(files)
-        k = rng.weighted([("chg", 40), ("cre", 15), ("ren", 18), ("del", 15), ("del_unknown", 8), ("cre_unreadable", 4)])
+        k = rng.weighted([("chg", 40), ("cre", 15), ("ren", 18), ("del", 15), ("del_unknown", 8), ("cre_unreadable", 4),
+                          ("outside", 10)])
+        if k == "outside":      # notifications about documents outside of the source directory (C10-F4)
+            o = rng.below(5)
+            m = rng.pick(live) if live else rng.pick(pool)
+            ev = [("chg", [(OUTSIDE, "class X {}")]), ("cre", [(OUTSIDE, "class X {}"), (m, gen_content(rng, m, pool, True)[0])]),
+                  ("ren", [(OUTSIDE, rng.pick(pool))]), ("ren", [(OUTSIDE, OUTSIDE), (m, rng.pick(pool))]),
+                  ("del", [OUTSIDE, m])][o]
+            evs.append(ev)
+            apply_event_fs(files, ev)
+            continue
         if k == "chg":
             m = rng.pick(live) if live and rng.chance(4, 5) else rng.pick(pool)
             ev = ("chg", [(m, gen_content(rng, m, pool, True)[0])])
@@ -646,11 +659,11 @@ def apply_event_fs(files, ev):
     k, v = ev
     if k in ("chg", "cre"):
         for m, t in v:
-            if t is not None:
+            if t is not None and m != OUTSIDE:
                 files[m] = t
     elif k == "ren":
         for a, b in v:
-            if a in files:
+            if a in files and OUTSIDE not in (a, b):
                 files[b] = files.pop(a)
     else:
         for m in v:
@@ -665,8 +678,15 @@ def lsp_stream(ctx, tb, binary, nhist):
     stats = {"histories": 0, "notifications": 0, "kinds": {}, "unknown_file_deletes": 0,
              "modules_compared": 0, "diagnostics_compared": 0}
     os.makedirs(common.SCRATCH_ROOT, exist_ok=True)
+    os.makedirs("/scratch/c10-not-in-the-project", exist_ok=True)
+    open("/scratch/c10-not-in-the-project/Elsewhere.sam", "w").write("class X {}")
     for hi in range(nhist):
-        init, evs = gen_events(rng.fork(), rng.range(2, 7))
+        if hi == 0:      # regression input of C10-F4 (fixed by d68f1d6): documents outside of the source directory
+            a_txt = "class A { function f(): int = \"s\" }"
+            init, evs = {"A": a_txt}, [("chg", [(OUTSIDE, "class X {}")]), ("del", [OUTSIDE]), ("cre", [(OUTSIDE, "class X {}")]),
+                                       ("ren", [(OUTSIDE, "B"), ("A", OUTSIDE)]), ("chg", [("A", "class A { function f(): int = 1 }")])]
+        else:
+            init, evs = gen_events(rng.fork(), rng.range(2, 7))
         texts = list(init.values()) + [t for _, v in evs if _ in ("chg", "cre") for _m, t in v if t is not None]
         tb.ids(texts)
         # model glue: notification -> op line
@@ -680,8 +700,10 @@ def lsp_stream(ctx, tb, binary, nhist):
             elif k == "ren":
                 evlines.append("ev ren " + " ".join(f"{a}:{b}" for a, b in v))
             else:
-                evlines.append("ev del " + " ".join(m if m in known else "?" for m in v))
+                evlines.append("ev del " + " ".join(m if (m in known or m == OUTSIDE) else "?" for m in v))
                 stats["unknown_file_deletes"] += sum(1 for m in v if m not in known)
+            if any(OUTSIDE in (x if isinstance(x, str) else tuple(y for y in x if isinstance(y, str))) for x in v):
+                stats["outside_root_notifications"] = stats.get("outside_root_notifications", 0) + 1
             for x in v:
                 if k in ("chg", "cre"):
                     known.add(x[0])
@@ -694,7 +716,7 @@ def lsp_stream(ctx, tb, binary, nhist):
         files = dict(init)
         idx = []
         for ev, ol in zip(evs, oplines):
-            lines.append(ol if len(ol.split(" ")) > 1 else "rem Zz9")   # an empty batch is still a call
+            lines.append(ol)   # an empty batch (`upd`, `ren`, `rem` without operands) is still a call
             apply_event_fs(files, ev)
             lines.append(("fresh " + " ".join(f"{m}={tb.cid[t]}" for m, t in sorted(files.items()))).strip())
             idx.append((len(lines) - 2, len(lines) - 1, dict(files)))
@@ -755,12 +777,15 @@ def lsp_stream(ctx, tb, binary, nhist):
                 k, v = ev
                 if k == "chg":
                     m, t = v[0]
-                    os.makedirs(os.path.dirname(lsp.path(m)), exist_ok=True)
-                    open(lsp.path(m), "w").write(t)
+                    if m != OUTSIDE:
+                        os.makedirs(os.path.dirname(lsp.path(m)), exist_ok=True)
+                        open(lsp.path(m), "w").write(t)
                     lsp.send("textDocument/didChange", {"textDocument": {"uri": lsp.uri(m), "version": ei + 2},
                                                         "contentChanges": [{"text": t}]})
                 elif k == "cre":
                     for m, t in v:
+                        if m == OUTSIDE:
+                            continue
                         if t is not None:
                             os.makedirs(os.path.dirname(lsp.path(m)), exist_ok=True)
                             open(lsp.path(m), "w").write(t)
@@ -769,20 +794,32 @@ def lsp_stream(ctx, tb, binary, nhist):
                     lsp.send("workspace/didCreateFiles", {"files": [{"uri": lsp.uri(m)} for m, _ in v]})
                 elif k == "ren":
                     for a, b in v:
-                        if os.path.exists(lsp.path(a)) and a != b:
+                        if OUTSIDE not in (a, b) and os.path.exists(lsp.path(a)) and a != b:
                             os.makedirs(os.path.dirname(lsp.path(b)), exist_ok=True)
                             os.replace(lsp.path(a), lsp.path(b))
                     lsp.send("workspace/didRenameFiles", {"files": [{"oldUri": lsp.uri(a), "newUri": lsp.uri(b)} for a, b in v]})
                 else:
                     for m in v:
-                        if os.path.exists(lsp.path(m)):
+                        if m != OUTSIDE and os.path.exists(lsp.path(m)):
                             os.remove(lsp.path(m))
                     lsp.send("workspace/didDeleteFiles", {"files": [{"uri": lsp.uri(m)} for m in v]})
                 stats["notifications"] += 1
                 got = lsp.settle()
+                if got is not None and any(OUTSIDE in (x if isinstance(x, str) else tuple(y for y in x if isinstance(y, str))) for x in v):
+                    # a query on a document outside of the source directory must be answered, too
+                    lsp.send("textDocument/hover", {"textDocument": {"uri": lsp.uri(OUTSIDE)},
+                                                    "position": {"line": 0, "character": 0}}, request=True)
+                    want = lsp.nid
+                    while True:
+                        m = lsp.read(30)
+                        if m is None:
+                            got = None
+                            break
+                        if m.get("id") == want and "method" not in m:
+                            break
                 exp_fresh, exp_inc = parse_obs(out[fa]), parse_obs(out[ia])
                 if got is None:
-                    problems = ["the server stopped answering (no log message / barrier response within 30 s)"]
+                    problems = [f"the server stopped answering (process exit code {lsp.p.poll()}; no log message / response within 30 s)"]
                 elif exp_fresh is None or exp_inc is None:
                     problems = [f"harness failed: {out[ia][:80]} / {out[fa][:80]}"]
                 else:
@@ -930,6 +967,16 @@ def run(ctx):
             lsp_stats = lsp_stream(ctx, tb, build_cli(), ctx.scale(12, 150))
         except common.BuildError as e:
             ctx.violation(f"{e.what} failed", {"broken": e.what, "log": e.log}, no_input=True)
+    # 3d. hypothesis Kinds as a fact of the current source (extract/c10_kinds.py)
+    rc, kout = common.sh([os.sys.executable, os.path.join(common.VERIF, "extract", "c10_kinds.py")], env={"SAMVERIF_REPO": common.REPO})
+    try:
+        kinds = json.loads(kout.strip().split("\n")[-1])
+    except Exception:
+        kinds = {"ok": False, "violations": ["extractor crashed: " + kout[-300:]]}
+    if rc != 0 or not kinds.get("ok"):
+        ctx.violation("hypothesis Kinds of incremental_refines_fresh is no longer a fact of the source (only the parser may report "
+                      "InvalidSyntax, and nothing else): " + "; ".join(kinds.get("violations", []))[:300],
+                      {"broken": "extract/c10_kinds.py (hypothesis Kinds, Lemmas/Incremental.lean)", "extractor": kinds}, no_input=True)
     # 4. dynamic check of the theorem's hypotheses on every evaluated checker call
     def fresh_shaped(key):   # every signature was built under its own name, builtin under ROOT
         g = key.split("/", 2)[2]
@@ -1005,7 +1052,7 @@ def run(ctx):
         "frame_hypothesis_pairs_checked": getattr(tb, "frame_pairs", 0),
         "histories_matching_known_findings": stats["oracle_known"],
         "foreign_located_errors_seen": nforeign,
-        "lsp_stdio": lsp_stats,
+        "lsp_stdio": lsp_stats, "kinds_extractor": kinds,
         "affected_set_graphs_compared_exactly": ngraphs, "affected_set_size_histogram": gsizes,
         "pending": ["hook for DependencyGraph::affected_set (exact comparison of the recheck set; today it is tied through its effects on diagnostics)",
                     "checked_modules / GC interplay (property C11)"],
@@ -1014,7 +1061,8 @@ def run(ctx):
     ctx.assumptions += [
         "frame hypothesis: type_check_module(m, c, G) depends only on G restricted to ROOT and the forward import closure of m (checked dynamically on all evaluated calls)",
         "weak locality (LocalW): an error that type_check_module(m, .., fresh G) reports into another module k has k in the forward import closure of m and is also reported by k's own check (checked dynamically on all such evaluated calls)",
-        "kinds: only the parser reports InvalidSyntax errors (checked dynamically on all evaluated calls)",
+        "kinds: only the parser reports InvalidSyntax errors, and it reports nothing else (source fact checked by extract/c10_kinds.py on every run, and dynamically on all evaluated calls)",
+        "documents outside of the source directory are not modules of the project (notifications about them are skipped; a rename across the boundary is not followed)",
         "ModuleReference::ROOT is the builtin module, not a file: operations naming it are no-ops in the file-system view",
         "diagnostics compared as sets (ErrorSet is a BTreeSet); rendering = to_ide_format",
     ]
